@@ -38,6 +38,23 @@ func main() {
 			*verif = filepath.Dir(filepath.Dir(exe))
 		}
 		os.Exit(run(*prop, *tier, *root, *verif, *tags, *goarch))
+	case "cfg":
+		p, err := core.Load("/repo", "", "", false)
+		if err != nil {
+			fmt.Println(err)
+			os.Exit(2)
+		}
+		f := p.Fn(os.Args[2])
+		if f == nil {
+			fmt.Println("no such function; keys containing it:")
+			for _, k := range p.SortedFuncKeys() {
+				if strings.Contains(k, os.Args[2]) {
+					fmt.Println(" ", k)
+				}
+			}
+			os.Exit(2)
+		}
+		fmt.Println(f.Graph().C.Format(p.Fset))
 	default:
 		fmt.Println("unknown command", os.Args[1])
 		os.Exit(2)
